@@ -2242,6 +2242,11 @@ static long double eval_double2(Node *node) {
   error_tok(node->tok, "not a compile-time constant");
 }
 
+// The value of an atomic read-modify-write built by to_assign() is the
+// new value of the object. Postfix ++ and -- need the value the object
+// had when the exchange succeeded; they set this flag.
+static bool atomic_result_is_old;
+
 // Convert op= operators to expressions containing an assignment.
 //
 // In general, `A op= C` is converted to ``tmp = &A, *tmp = *tmp op B`.
@@ -2284,7 +2289,7 @@ static Node *to_assign(Node *binary) {
   //   do {
   //    new = old op val;
   //   } while (!atomic_compare_exchange_strong(addr, &old, new));
-  //   new;
+  //   new;      (or old, for postfix ++ and --)
   // })
   if (binary->lhs->ty->is_atomic) {
     Node head = {};
@@ -2332,7 +2337,8 @@ static Node *to_assign(Node *binary) {
     loop->cond = new_unary(ND_NOT, cas, tok);
 
     cur = cur->next = loop;
-    cur = cur->next = new_unary(ND_EXPR_STMT, new_var_node(new, tok), tok);
+    cur = cur->next = new_unary(ND_EXPR_STMT,
+                                new_var_node(atomic_result_is_old ? old : new, tok), tok);
 
     Node *node = new_node(ND_STMT_EXPR, tok);
     node->body = head.next;
@@ -3039,11 +3045,13 @@ static Node *new_inc_dec(Node *node, Token *tok, int addend) {
   add_type(node);
 
   // An atomic object is updated by a single read-modify-write
-  // operation: convert A++ to `(typeof A)((A += 1) - 1)`.
-  if (node->ty->is_atomic)
-    return new_cast(new_add(to_assign(new_add(node, new_num(addend, tok), tok)),
-                            new_num(-addend, tok), tok),
-                    node->ty);
+  // operation; its value before that operation is the result.
+  if (node->ty->is_atomic) {
+    atomic_result_is_old = true;
+    Node *rmw = to_assign(new_add(node, new_num(addend, tok), tok));
+    atomic_result_is_old = false;
+    return rmw;
+  }
 
   // The result is the value A had before, which in general cannot be
   // recomputed from the new value (_Bool, bit-fields, floating types).
